@@ -822,6 +822,62 @@ pub unsafe extern "C" fn unlinkat(d: c_int, p: *const libc::c_char, flags: c_int
     do_unlink(d, p, flags)
 }
 
+/// A duplicated descriptor shares the open file description of the original (one flock, one
+/// file offset): `dup`, `dup2`, `dup3` and `fcntl(F_DUPFD[_CLOEXEC])`, which is what
+/// `File::try_clone` uses.
+fn record_dup(old: c_int, new: c_int) {
+    if new < 0 || !tracked(old) {
+        return;
+    }
+    with(|s| {
+        if let Some(st) = s.fds.get(&old) {
+            let copy = FdState { fid: st.fid, ofd: st.ofd, poisoned: None };
+            s.fds.insert(new, copy);
+            s.total_calls += 1;
+        }
+    });
+}
+
+#[no_mangle]
+pub unsafe extern "C" fn fcntl(fd: c_int, cmd: c_int, arg: usize) -> c_int {
+    let r = libc::syscall(libc::SYS_fcntl, fd, cmd, arg) as c_int;
+    if (cmd == libc::F_DUPFD || cmd == libc::F_DUPFD_CLOEXEC) && ACTIVE.load(Ordering::Relaxed) && !bypassed() {
+        record_dup(fd, r);
+    }
+    r
+}
+
+#[no_mangle]
+pub unsafe extern "C" fn fcntl64(fd: c_int, cmd: c_int, arg: usize) -> c_int {
+    fcntl(fd, cmd, arg)
+}
+
+#[no_mangle]
+pub unsafe extern "C" fn dup(fd: c_int) -> c_int {
+    let r = libc::syscall(libc::SYS_dup, fd) as c_int;
+    if ACTIVE.load(Ordering::Relaxed) && !bypassed() {
+        record_dup(fd, r);
+    }
+    r
+}
+
+#[no_mangle]
+pub unsafe extern "C" fn dup3(old: c_int, new: c_int, flags: c_int) -> c_int {
+    let r = libc::syscall(libc::SYS_dup3, old, new, flags) as c_int;
+    if ACTIVE.load(Ordering::Relaxed) && !bypassed() && r >= 0 {
+        record_dup(old, r);
+    }
+    r
+}
+
+#[no_mangle]
+pub unsafe extern "C" fn dup2(old: c_int, new: c_int) -> c_int {
+    if old == new {
+        return libc::syscall(libc::SYS_fcntl, old, libc::F_GETFD) as c_int;
+    }
+    dup3(old, new, 0)
+}
+
 #[no_mangle]
 pub unsafe extern "C" fn close(fd: c_int) -> c_int {
     if tracked(fd) {
